@@ -614,63 +614,60 @@ Inductive ckind := CUnion | CNonStrKey | CType.
 Inductive cres := COk | CErr (k : ckind) (p : list cpelem).
 Definition cthen (r k : cres) : cres := match r with COk => k | e => e end.
 
-Section Policy.
-Variable pol : nat -> bool.
-
 (* _check_config_struct_type, in the order of its tests *)
-Fixpoint check (a : ann) (p : list cpelem) {struct a} : cres :=
+Fixpoint check (pol : nat -> bool) (a : ann) (p : list cpelem) {struct a} : cres :=
   match a with
-  | AOpt a' => check a' p                       (* unwrapped, same path *)
+  | AOpt a' => check pol a' p                       (* unwrapped, same path *)
   | AUnion _ _ => CErr CUnion p                 (* raised at the second non-None member *)
   | AInt | AFloat | AStr | ABool | AAny => COk
   | ARaw RTupleB => CErr CType p
   | ARaw _ => COk
-  | AList a' => check a' (p ++ [CAny])
-  | AVarTuple a' => check a' (p ++ [CAny])
-  | ATuple ms => check_tuple ms 0 p
-  | ADict kstr a' => if kstr then check a' (p ++ [CAny]) else CErr CNonStrKey p
-  | AStruct fs => check_fields fs p
+  | AList a' => check pol a' (p ++ [CAny])
+  | AVarTuple a' => check pol a' (p ++ [CAny])
+  | ATuple ms => check_tuple pol ms 0 p
+  | ADict kstr a' => if kstr then check pol a' (p ++ [CAny]) else CErr CNonStrKey p
+  | AStruct fs => check_fields pol fs p
   | AOther => CErr CType p
-  | AAlt fam a' => if pol fam then check a' p else CErr CType p
+  | AAlt fam a' => if pol fam then check pol a' p else CErr CType p
   end
-with check_tuple (ms : anns) (i : nat) (p : list cpelem) {struct ms} : cres :=
+with check_tuple (pol : nat -> bool) (ms : anns) (i : nat) (p : list cpelem) {struct ms} : cres :=
   match ms with
   | ANil => COk
-  | ACons a r => cthen (check a (p ++ [CIdx i])) (check_tuple r (S i) p)
+  | ACons a r => cthen (check pol a (p ++ [CIdx i])) (check_tuple pol r (S i) p)
   end
-with check_fields (fs : afields) (p : list cpelem) {struct fs} : cres :=
+with check_fields (pol : nat -> bool) (fs : afields) (p : list cpelem) {struct fs} : cres :=
   match fs with
   | AFNil => COk
-  | AFCons n a _ r => cthen (check a (p ++ [CField n])) (check_fields r p)
+  | AFCons n a _ r => cthen (check pol a (p ++ [CField n])) (check_fields pol r p)
   end.
 
 (* the accepted type an annotation stands for, if any *)
-Fixpoint denote (a : ann) : option cty :=
+Fixpoint denote (pol : nat -> bool) (a : ann) {struct a} : option cty :=
   match a with
   | AInt => Some TInt | AFloat => Some TFloat | AStr => Some TStr | ABool => Some TBool | AAny => Some TAny
   | ARaw RList => Some TRawList | ARaw RDict => Some TRawDict | ARaw RTuple => Some TRawTuple
   | ARaw RTupleB => None
   | AOther => None
-  | AAlt fam a' => if pol fam then denote a' else None
-  | AOpt a' => option_map TOpt (denote a')
+  | AAlt fam a' => if pol fam then denote pol a' else None
+  | AOpt a' => option_map TOpt (denote pol a')
   | AUnion _ _ => None
-  | AList a' => option_map TList (denote a')
-  | ADict kstr a' => if kstr then option_map TDict (denote a') else None
-  | AVarTuple a' => option_map TVarTuple (denote a')
-  | ATuple ms => option_map TTuple (denote_anns ms)
-  | AStruct fs => option_map TStruct (denote_fields fs)
+  | AList a' => option_map TList (denote pol a')
+  | ADict kstr a' => if kstr then option_map TDict (denote pol a') else None
+  | AVarTuple a' => option_map TVarTuple (denote pol a')
+  | ATuple ms => option_map TTuple (denote_anns pol ms)
+  | AStruct fs => option_map TStruct (denote_fields pol fs)
   end
-with denote_anns (ms : anns) : option ctys :=
+with denote_anns (pol : nat -> bool) (ms : anns) {struct ms} : option ctys :=
   match ms with
   | ANil => Some TNil
-  | ACons a r => match denote a, denote_anns r with
+  | ACons a r => match denote pol a, denote_anns pol r with
                  | Some t, Some ts => Some (TCons t ts)
                  | _, _ => None end
   end
-with denote_fields (fs : afields) : option cfields :=
+with denote_fields (pol : nat -> bool) (fs : afields) {struct fs} : option cfields :=
   match fs with
   | AFNil => Some FNil
-  | AFCons n a d r => match denote a, denote_fields r with
+  | AFCons n a d r => match denote pol a, denote_fields pol r with
                       | Some t, Some fs' => Some (FCons n t d fs')
                       | _, _ => None end
   end.
@@ -679,14 +676,11 @@ Fixpoint alen (ms : anns) : nat := match ms with ANil => 0 | ACons _ r => S (ale
 Fixpoint afnames (fs : afields) : list str :=
   match fs with AFNil => [] | AFCons n _ _ r => n :: afnames r end.
 
-Section ParseAnn.
-  Variable foi : Z -> option str.
-
   (* _parse_config_value on ANY annotation (the generated constructor calls it without the check).
      Branches that exist only for annotations outside the accepted grammar: the last member of a
      multi-member Union is taken; a Dict key type is ignored; the builtin tuple is a bare Tuple;
      an unrecognised annotation falls through to the type-mismatch error. *)
-  Fixpoint parse_ann (a : ann) (d : jval) (p : path) {struct a} : result cval :=
+  Fixpoint parse_ann (pol : nat -> bool) (foi : Z -> option str) (a : ann) (d : jval) (p : path) {struct a} : result cval :=
     match a with
     | AInt => parse foi TInt d p
     | AFloat => parse foi TFloat d p
@@ -697,62 +691,61 @@ Section ParseAnn.
     | ARaw RDict => parse foi TRawDict d p
     | ARaw RTuple | ARaw RTupleB => parse foi TRawTuple d p
     | AOther => Err Mismatch p
-    | AAlt fam a' => if pol fam then parse_ann a' d p else Err Mismatch p
-    | AOpt a' => match d with JNull => Ok VNull | _ => parse_ann a' d p end
-    | AUnion ms hn => if hn then match d with JNull => Ok VNull | _ => parse_last ms d p end
-                      else parse_last ms d p
+    | AAlt fam a' => if pol fam then parse_ann pol foi a' d p else Err Mismatch p
+    | AOpt a' => match d with JNull => Ok VNull | _ => parse_ann pol foi a' d p end
+    | AUnion ms hn => if hn then match d with JNull => Ok VNull | _ => parse_last pol foi ms d p end
+                      else parse_last pol foi ms d p
     | AList a' => match d with
-                  | JList l => rmap VList (parse_elems (parse_ann a') l 0 p)
+                  | JList l => rmap VList (parse_elems (parse_ann pol foi a') l 0 p)
                   | _ => Err Mismatch p end
     | AVarTuple a' => match d with
-                      | JList l => rmap VTuple (parse_elems (parse_ann a') l 0 p)
+                      | JList l => rmap VTuple (parse_elems (parse_ann pol foi a') l 0 p)
                       | _ => Err Mismatch p end
     | ATuple ms => match d with
                    | JList l => if Nat.eqb (length l) (alen ms)
-                                then rmap VTuple (parse_atuple ms l 0 p)
+                                then rmap VTuple (parse_atuple pol foi ms l 0 p)
                                 else Err Mismatch p
                    | _ => Err Mismatch p end
     | ADict _ a' => match d with
-                    | JObj l => rmap VDict (parse_items (parse_ann a') l p)
+                    | JObj l => rmap VDict (parse_items (parse_ann pol foi a') l p)
                     | _ => Err Mismatch p end
     | AStruct fs => match d with
                     | JObj l =>
-                        rbind (parse_afields fs l p) (fun items =>
+                        rbind (parse_afields pol foi fs l p) (fun items =>
                           match first_unknown (afnames fs) (map fst l) with
                           | Some k => Err Unknown (p ++ [PField k])
                           | None => Ok (VStruct items)
                           end)
                     | _ => Err Mismatch p end
     end
-  with parse_last (ms : anns) (d : jval) (p : path) {struct ms} : result cval :=
+  with parse_last (pol : nat -> bool) (foi : Z -> option str) (ms : anns) (d : jval) (p : path) {struct ms} : result cval :=
     match ms with
     | ANil => Err Mismatch p
-    | ACons a ANil => parse_ann a d p
-    | ACons _ r => parse_last r d p
+    | ACons a ANil => parse_ann pol foi a d p
+    | ACons _ r => parse_last pol foi r d p
     end
-  with parse_atuple (ms : anns) (l : list jval) (i : nat) (p : path) {struct ms}
+  with parse_atuple (pol : nat -> bool) (foi : Z -> option str) (ms : anns) (l : list jval) (i : nat) (p : path) {struct ms}
     : result (list cval) :=
     match ms, l with
     | ANil, _ => Ok []
     | ACons a r, e :: l' =>
-        rbind (parse_ann a e (p ++ [PIdx i])) (fun v => rmap (cons v) (parse_atuple r l' (S i) p))
+        rbind (parse_ann pol foi a e (p ++ [PIdx i])) (fun v => rmap (cons v) (parse_atuple pol foi r l' (S i) p))
     | ACons _ _, [] => Err Mismatch p
     end
-  with parse_afields (fs : afields) (l : list (str * jval)) (p : path) {struct fs}
+  with parse_afields (pol : nat -> bool) (foi : Z -> option str) (fs : afields) (l : list (str * jval)) (p : path) {struct fs}
     : result (list (str * cval)) :=
     match fs with
     | AFNil => Ok []
     | AFCons n a dflt r =>
         match assoc n l with
-        | Some d => rbind (parse_ann a d (p ++ [PField n]))
-                      (fun v => rmap (cons (n, v)) (parse_afields r l p))
+        | Some d => rbind (parse_ann pol foi a d (p ++ [PField n]))
+                      (fun v => rmap (cons (n, v)) (parse_afields pol foi r l p))
         | None => match dflt with
                   | None => Err Missing (p ++ [PField n])
-                  | Some dv => rmap (cons (n, dv)) (parse_afields r l p)
+                  | Some dv => rmap (cons (n, dv)) (parse_afields pol foi r l p)
                   end
         end
     end.
-End ParseAnn.
 
 (* sub-annotations: everything the parser can be called on while parsing for annotation a *)
 Inductive subann : ann -> ann -> Prop :=
@@ -783,17 +776,16 @@ Inductive afield_in : afields -> str -> ann -> option cval -> Prop :=
 | afi_later n a d n' a' d' r : afield_in r n a d -> afield_in (AFCons n' a' d' r) n a d.
 
 (* the annotation at definition path q is refused, with this message kind *)
-Inductive unsup_at : ann -> list cpelem -> ckind -> Prop :=
-| un_union ms hn : unsup_at (AUnion ms hn) [] CUnion
-| un_key a : unsup_at (ADict false a) [] CNonStrKey
-| un_other : unsup_at AOther [] CType
-| un_alt_off fam a : pol fam = false -> unsup_at (AAlt fam a) [] CType
-| un_alt_on fam a q k : pol fam = true -> unsup_at a q k -> unsup_at (AAlt fam a) q k
-| un_tupleb : unsup_at (ARaw RTupleB) [] CType
-| un_opt a q k : unsup_at a q k -> unsup_at (AOpt a) q k
-| un_list a q k : unsup_at a q k -> unsup_at (AList a) (CAny :: q) k
-| un_dict a q k : unsup_at a q k -> unsup_at (ADict true a) (CAny :: q) k
-| un_vartuple a q k : unsup_at a q k -> unsup_at (AVarTuple a) (CAny :: q) k
-| un_tuple ms i a q k : anth ms i = Some a -> unsup_at a q k -> unsup_at (ATuple ms) (CIdx i :: q) k
-| un_struct fs n a d q k : afield_in fs n a d -> unsup_at a q k -> unsup_at (AStruct fs) (CField n :: q) k.
-End Policy.
+Inductive unsup_at (pol : nat -> bool) : ann -> list cpelem -> ckind -> Prop :=
+| un_union ms hn : unsup_at pol (AUnion ms hn) [] CUnion
+| un_key a : unsup_at pol (ADict false a) [] CNonStrKey
+| un_other : unsup_at pol AOther [] CType
+| un_alt_off fam a : pol fam = false -> unsup_at pol (AAlt fam a) [] CType
+| un_alt_on fam a q k : pol fam = true -> unsup_at pol a q k -> unsup_at pol (AAlt fam a) q k
+| un_tupleb : unsup_at pol (ARaw RTupleB) [] CType
+| un_opt a q k : unsup_at pol a q k -> unsup_at pol (AOpt a) q k
+| un_list a q k : unsup_at pol a q k -> unsup_at pol (AList a) (CAny :: q) k
+| un_dict a q k : unsup_at pol a q k -> unsup_at pol (ADict true a) (CAny :: q) k
+| un_vartuple a q k : unsup_at pol a q k -> unsup_at pol (AVarTuple a) (CAny :: q) k
+| un_tuple ms i a q k : anth ms i = Some a -> unsup_at pol a q k -> unsup_at pol (ATuple ms) (CIdx i :: q) k
+| un_struct fs n a d q k : afield_in fs n a d -> unsup_at pol a q k -> unsup_at pol (AStruct fs) (CField n :: q) k.
